@@ -18,7 +18,7 @@ def layout(spec):
 
 def check_spec(acc, spec, tier):
     nv = len(spec["vars"])
-    for cfg in S.configs_for(spec, tier, full=SC.family_of(spec) in ("F3", "F4")):
+    for cfg in S.configs_for(spec, tier, full=SC.family_of(spec) in ("F3", "F4", "F7")):
         for mode, var in (("enumerate", None), ("min", nv - 1)):
             if mode != "enumerate" and (U.n_assignments(spec) > 5000 or SC.family_of(spec) == "F1"):
                 continue
